@@ -31,7 +31,7 @@ func genIndex(name string) int {
 	return -1
 }
 
-func runGenEquiv(t *testing.T, names []string) {
+func runGenEquiv(t *testing.T, ctor string, names []string) {
 	em := NewEmitter()
 	defer em.Close()
 	wd, _ := os.Getwd()
@@ -96,10 +96,13 @@ func runGenEquiv(t *testing.T, names []string) {
 		em.Emit(Rec{Idx: idx, Kind: "gen-equiv", Desc: map[string]any{"function": name},
 			Obs:  map[string]any{"verdict": verdict, "coqc": log, "generated_bytes": len(src)},
 			Tags: []string{"gen:" + name + "=" + verdict},
-			Coq:  fmt.Sprintf("CGen %d %d", genIndex(name), st)})
+			Coq:  fmt.Sprintf("%s %d %d", ctor, genIndex(name), st)})
 		em.Marker("end", idx)
 	}
 }
 
-func TestGenEquivC08(t *testing.T) { runGenEquiv(t, []string{"ParseGrpcTimeout", "DeadlineHeader"}) }
-func TestGenEquivC04(t *testing.T) { runGenEquiv(t, []string{"ToMetadata"}) }
+func TestGenEquivC08(t *testing.T) { runGenEquiv(t, "CGen", []string{"ParseGrpcTimeout", "DeadlineHeader"}) }
+func TestGenEquivC04(t *testing.T) { runGenEquiv(t, "CGen", []string{"ToMetadata"}) }
+
+// parseRawMethod is C12's (builder sv): the case type of C12 has the constructor C12Gen for it
+func TestGenEquivC12(t *testing.T) { runGenEquiv(t, "C12Gen", []string{"ParseRawMethod"}) }
